@@ -383,10 +383,25 @@ class ScenarioGenerator:
                 if None not in os_choices \
                    and not all([os in os_choices for os in self.os]):
                     continue
-            if all([os_choices.count(os) <= len(self.processes)
-                    for os in possible_os]):
-                # can assign a different process to each use of an OS
-                break
+            break
+
+        # each use of an OS needs a different process: move the surplus uses
+        # of an OS that was drawn more often than there are processes to OSs
+        # that still have unused processes (redrawing until this holds by
+        # chance practically never ends for requests close to
+        # num_processes * (num_os + 1))
+        os_counts = {os: os_choices.count(os) for os in possible_os}
+        for i in reversed(range(len(os_choices))):
+            os = os_choices[i]
+            if os_counts[os] > len(self.processes):
+                room = [
+                    o for o in possible_os
+                    if os_counts[o] < len(self.processes)
+                ]
+                new_os = room[np.random.randint(len(room))]
+                os_choices[i] = new_os
+                os_counts[os] -= 1
+                os_counts[new_os] += 1
 
         # we create one exploit per service
         privescs_added = 0
